@@ -20,6 +20,9 @@ import (
 
 const verifDir = "/verif"
 
+var evidenceDir = filepath.Join(verifDir, "evidence")
+var replayDir = filepath.Join(verifDir, "replays")
+
 type KnownFinding struct {
 	ID          string `json:"id"`
 	Property    string `json:"property"`
@@ -62,6 +65,8 @@ type replayVector struct {
 	Args    []int             `json:"args"`
 	Values  map[string]uint64 `json:"values"`
 	Choices []int             `json:"choices"`
+	Prefixes  []string        `json:"prefixes,omitempty"`
+	KnownOpen []string        `json:"known_open,omitempty"`
 	Expect  struct {
 		Kind string `json:"kind"`
 		ID   string `json:"id"`
@@ -103,14 +108,14 @@ func nativeOverlay(workDir string) (string, error) {
 			}
 			return nil
 		}
-		if !strings.HasSuffix(path, ".go") {
+		if !strings.HasSuffix(path, ".go") || strings.HasSuffix(path, "_symonly.go") {
 			return nil
 		}
 		rel, _ := filepath.Rel(hdir, filepath.Dir(path))
 		if rel == "root" {
 			rel = ""
 		}
-		replace[filepath.Join("/repo", rel, filepath.Base(path))] = path
+		replace[filepath.Join(repoRoot, rel, filepath.Base(path))] = path
 		p := pkgs[rel]
 		if p == nil {
 			p = &pk{rel: rel}
@@ -144,7 +149,7 @@ func nativeOverlay(workDir string) (string, error) {
 		os.MkdirAll(d, 0o755)
 		api := filepath.Join(d, "zz_verif_api.go")
 		os.WriteFile(api, []byte(strings.ReplaceAll(string(tdata), "PKGNAME", name)), 0o644)
-		replace[filepath.Join("/repo", rel, "zz_verif_api.go")] = api
+		replace[filepath.Join(repoRoot, rel, "zz_verif_api.go")] = api
 		var sb strings.Builder
 		fmt.Fprintf(&sb, "//go:build verif\n\npackage %s\n\nimport (\n\t\"encoding/json\"\n\t\"fmt\"\n\t\"os\"\n\t\"sort\"\n\t\"strings\"\n\t\"testing\"\n)\n\n", name)
 		sb.WriteString("func vDispatch(name string, a []int) {\n\tswitch name {\n")
@@ -192,7 +197,7 @@ func nativeOverlay(workDir string) (string, error) {
 `)
 		tf := filepath.Join(d, "zz_verif_replay_test.go")
 		os.WriteFile(tf, []byte(sb.String()), 0o644)
-		replace[filepath.Join("/repo", rel, "zz_verif_replay_test.go")] = tf
+		replace[filepath.Join(repoRoot, rel, "zz_verif_replay_test.go")] = tf
 	}
 	ov, _ := json.Marshal(map[string]interface{}{"Replace": replace})
 	ovPath := filepath.Join(workDir, "overlay.json")
@@ -302,7 +307,7 @@ func writeVector(dir string, v replayVector) string {
 }
 
 func repoStatus() string {
-	out, _ := exec.Command("git", "-C", "/repo", "status", "--porcelain").CombinedOutput()
+	out, _ := exec.Command("git", "-C", repoRoot, "status", "--porcelain").CombinedOutput()
 	return string(out)
 }
 
@@ -335,6 +340,11 @@ func cmdCheck(args []string) {
 		os.Exit(2)
 	}
 	workDir := filepath.Join(verifDir, ".work", id)
+	if repoRoot != "/repo" {
+		workDir = filepath.Join(repoRoot, ".verif_work", id)
+		evidenceDir = filepath.Join(repoRoot, ".verif_evidence")
+		replayDir = filepath.Join(repoRoot, ".verif_replays")
+	}
 	os.RemoveAll(workDir)
 	os.MkdirAll(workDir, 0o755)
 
@@ -354,6 +364,11 @@ func cmdCheck(args []string) {
 		os.Exit(2)
 	}
 	knownOpen, knownByID := loadKnown()
+	var knownOpenList []string
+	for k := range knownOpen {
+		knownOpenList = append(knownOpenList, k)
+	}
+	sort.Strings(knownOpenList)
 	jobs := spec.Jobs(*tier)
 	var filtered []sym.Job
 	for _, j := range jobs {
@@ -450,13 +465,16 @@ func cmdCheck(args []string) {
 			engineProblems = append(engineProblems, fmt.Sprintf("%s%v: inconclusive: %s (x%d)", jobs[i].Harness, jobs[i].Args, why, n))
 		}
 		for _, v := range r.Violations {
-			vec := replayVector{Harness: v.Harness, Pkg: jobs[i].Pkg, Args: v.Args, Values: v.Model, Choices: v.Choices, Property: id, Known: v.KnownID}
+			vec := replayVector{Harness: v.Harness, Pkg: jobs[i].Pkg, Args: v.Args, Values: v.Model, Choices: v.Choices, Property: id, Known: v.KnownID, Prefixes: spec.AssertPrefix}
+			if v.KnownID == "" {
+				vec.KnownOpen = knownOpenList
+			}
 			vec.Expect.Kind, vec.Expect.ID, vec.Expect.Msg = v.Kind, v.ID, v.Msg
-			f := writeVector(filepath.Join(verifDir, "replays", id), vec)
+			f := writeVector(filepath.Join(replayDir, id), vec)
 			vrecs = append(vrecs, vrec{v, jobs[i].Pkg, f})
 		}
 		for _, s := range r.Samples {
-			vec := replayVector{Harness: s.Harness, Pkg: jobs[i].Pkg, Args: s.Args, Values: s.Inputs, Choices: s.Choices, Property: id, Observed: s.Observed}
+			vec := replayVector{Harness: s.Harness, Pkg: jobs[i].Pkg, Args: s.Args, Values: s.Inputs, Choices: s.Choices, Property: id, Observed: s.Observed, Prefixes: spec.AssertPrefix, KnownOpen: knownOpenList}
 			vec.Expect.Kind = "sample"
 			f := writeVector(filepath.Join(workDir, "samples"), vec)
 			sampleFiles = append(sampleFiles, f)
